@@ -59,4 +59,71 @@ structure OpFact where
   stateRows : List StateRow
 deriving Repr
 
+/-! ### ee/plugins/prometheus (go/extract/prom.go → RoGen/Prom.lean) -/
+
+/-- one argument of the instrumented `ro.PipeOp2N(...)` call of a generated `PipeN` -/
+inductive PromSlot
+  | op (k : Nat)                    -- the parameter `operatork` (1-based)
+  | obs (arg : Nat) (index : Nat)   -- observeOperatorProcessingTime(…, arg.Name, arg.Pos, index)
+  | other (text : String)
+deriving DecidableEq, Repr
+
+structure PromPipe where
+  name : String
+  arity : Nat            -- number of `operatork` parameters
+  leading : Nat          -- parameters before `operator1`
+  descCall : String
+  skipCaller : Nat
+  skipArgs : Nat
+  errReturn : String
+  argDecls : List Nat    -- k of every `argk := pipeDescription.Arguments[k]`
+  collector : String
+  call : String          -- receives (collector, source, plain, instrumented)
+  callHead : String
+  plainFn : String
+  plain : List Nat
+  instrFn : String
+  instr : List PromSlot   -- nested ro.PipeOpK calls flattened
+  returnsCollector : Bool
+  plainAritiesOk : Bool   -- every (nested) ro.PipeOpK call has exactly K arguments
+  instrAritiesOk : Bool
+deriving DecidableEq, Repr
+
+structure PromLicence where
+  enabled : String
+  bypassDefault : String
+  ctor : String
+  cond : String
+  thenBranch : String
+  elseBranch : String
+  subscribe : String
+  returns : String
+deriving DecidableEq, Repr
+
+/-- one step of a callback (or of the subscribe function) of a wrapper of operator.go -/
+inductive PromEv
+  | direct                                   -- the destination's own method passed as the callback
+  | inc (counter : String)                   -- counter.Inc()
+  | fwdNext | fwdError | fwdComplete         -- destination.X(ctx, <the callback's own arguments>)
+  | fwdModified (text : String)              -- destination.X with other arguments, or under a condition
+  | observe (guard : String) (metric : String)
+  | stamp (v : String) | readStamp | clock (v : String)
+  | other (text : String)
+deriving DecidableEq, Repr
+
+structure PromWrapper where
+  name : String
+  exported : Bool
+  licenceGuard : Bool
+  ctor : String
+  subscribeN : Nat
+  subscribeCtx : String
+  passThrough : Bool
+  preSubscribe : List PromEv
+  onNext : List PromEv
+  onError : List PromEv
+  onComplete : List PromEv
+  returns : String
+deriving DecidableEq, Repr
+
 end Ro.Facts
